@@ -12,7 +12,8 @@
 (***************************************************************************)
 EXTENDS EFParser, Json
 
-CONSTANT Tier
+CONSTANT Tier,
+         Seed      \* >= 1: shifts which part of a sampled family is taken (1 = the default sample)
 
 VARIABLE row
 vars == <<row>>
@@ -94,7 +95,7 @@ Next ==
              row' = MkRow("pair", IF left THEN Bn(BinOpList[o2], Bn(row.o1, A, B), C) ELSE Bn(row.o1, A, Bn(BinOpList[o2], B, C)))
      \/ /\ row.k = "triple0"
         /\ \E o2 \in 1..NB, o3 \in 1..NB :
-             /\ (Tier = "thorough" \/ (o2 + 3 * o3 + row.sh) % 6 = 0)
+             /\ (Tier = "thorough" \/ (o2 + 3 * o3 + row.sh + Seed - 1) % 6 = 0)
              /\ row' = MkRow("triple", Group3(row.sh, row.o1, BinOpList[o2], BinOpList[o3]))
      \/ /\ row.k = "quad0"
         /\ \E o3 \in 1..NB, o4 \in 1..NB :
@@ -104,7 +105,7 @@ Next ==
         /\ \E o \in 1..NB, u \in 1..NP : row' = MkRow("mixed", Mixed(row.m, BinOpList[o], PrefixOps[u]))
      \/ /\ row.k = "asg0"
         /\ \/ \E o \in 1..NB : row' = MkAsg(row.op, Bn(BinOpList[o], A, B))
-           \/ \E o \in 1..NB, o2 \in 1..NB : (o + o2) % 3 = 0 /\ row' = MkAsg(row.op, Bn(BinOpList[o], A, Bn(BinOpList[o2], B, C)))
+           \/ \E o \in 1..NB, o2 \in 1..NB : (o + o2 + Seed - 1) % 3 = 0 /\ row' = MkAsg(row.op, Bn(BinOpList[o], A, Bn(BinOpList[o2], B, C)))
            \/ row' = MkAsg(row.op, Tn(A, B, C))
            \/ \E o \in 1..NB : row' = MkAsg(row.op, Tn(Bn(BinOpList[o], A, B), C, D))
            \/ \E u \in 1..NP : row' = MkAsg(row.op, Un(PrefixOps[u], Ix(A, B)))
